@@ -278,6 +278,14 @@ fn c04() -> Property {
                 note: "a valid encoding (value tree, performative, SASL frame body, message) corrupted 1-3 times in transit (size / count / format-code fields, string bodies, bit flips, nesting up to 8000 deep) and possibly cut, decoded as every public type through the slice reader and the simulated stream",
             },
             Variant {
+                name: "valid-encodings",
+                weight: 1,
+                make: || Box::pin(scen::codec::run_c04_valid()),
+                max_steps: 3_000_000,
+                cases_per_seed: 1,
+                note: "uncorrupted encodings from the independent encoder (incl. arrays of compound and zero-width elements, wide forms): must decode through both readers and survive the crate's own encoder",
+            },
+            Variant {
                 name: "cut-at-every-offset",
                 weight: 1,
                 make: || Box::pin(scen::codec::run_c04_cut_sweep()),
@@ -294,8 +302,8 @@ fn c04() -> Property {
                 note: "every byte string of length <= 2 and a 16x16 grid of length-3 strings per first byte",
             },
         ],
-        quick_runs: 5 * 700 * 20,
-        thorough_runs: 5 * 700 * 2000,
+        quick_runs: 6 * 700 * 20,
+        thorough_runs: 6 * 700 * 2000,
         rule: "corruption variant: one run = one generated encoding x 1-3 structure-aware corruptions (+ optional cut) x seeded chunking and interrupted reads; cut variant: one run per (seed, offset 0..700); short-string variant: one run per first byte (257 runs cover all strings of length <= 2 exactly once per block); blocks of 700 run indices alternate between the variants 3:1:1; distinct = distinct event-log hash",
         assumptions: vec![
             "allocation is measured by a counting global allocator around each decode call; 'in proportion' is peak <= 160 x input length + 16 MiB (the crate caps one array at 65536 elements of 72 bytes before it has seen its body)",
@@ -304,7 +312,7 @@ fn c04() -> Property {
         ],
         real_components: vec!["serde_amqp (slice reader, io reader, Value, LazyValue, size calculator)", "fe2o3-amqp-types performatives and message", "fe2o3-amqp frame decoders (AMQP and SASL)"],
         stub_components: vec!["simulator-owned std::io::Read (chunking, interrupted reads, cut, hard error, corruption in transit)", "independent encoder (refcodec) and field scanner"],
-        expected_probes: vec!["value-decoded", "value-rejected", "short-strings-block-done"],
+        expected_probes: vec!["value-decoded", "value-rejected", "short-strings-block-done", "valid-encoding-decoded"],
     }
 }
 
